@@ -70,6 +70,8 @@ class Path:
         self.depth = 0
         self.decision_idx = set()
         self.memo = {}                  # results of assumed contracts on this path (functional purity, C20)
+        self.forced = {}                # id(Unknown) -> (Unknown, value chosen on this path)
+        self.partial = {}               # id(Unknown) -> (Unknown, the candidate values still possible on this path)
 
     # -- solver --------------------------------------------------------------------------------------
     def assume(self, c):
@@ -215,7 +217,17 @@ class Path:
             raise Limitation(f"field {name} of {obj!r} is not defined on this path")
         v = f[name]
         if isinstance(v, Unknown) and name in ("_Pregex__type", "_Pregex__repeatable"):
-            v = self.eng.force_unknown(self, obj, name, v)
+            # the value chosen for an undetermined field is attached to the Unknown itself (per path): copies of the
+            # object (class forms take the fields of the method form's result) share the choice
+            if id(v) not in self.forced:
+                self.forced[id(v)] = (v, self.eng.force_unknown(self, obj, name, v))
+            v = self.forced[id(v)][1]
+        return v
+
+    def resolved(self, v):
+        """the value already chosen on this path for an undetermined field, else the Unknown itself"""
+        if isinstance(v, Unknown) and id(v) in self.forced:
+            return self.forced[id(v)][1]
         return v
 
     def setf(self, obj, name, value, frame=True):
@@ -228,6 +240,11 @@ class Frame:
     def __init__(self, func, env, cls, module, self_obj=None):
         self.func, self.env, self.cls, self.module, self.self_obj = func, env, cls, module, self_obj
         self.loop_ordinal = 0
+
+
+def _public_method(name):
+    """a public method or an operator (dunder) method - not a private helper"""
+    return not name.startswith("_") or (name.startswith("__") and name.endswith("__"))
 
 
 def _is_concrete(a, path=None):
@@ -247,7 +264,10 @@ def concrete_json(a, path):
     if isinstance(a, (list, tuple)):
         return [concrete_json(x, path) for x in a]
     if isinstance(a, Obj):
-        return {"__pregex__": path.fields(a)["_Pregex__pattern"]}
+        f = path.fields(a)
+        if isinstance(f.get("_Class__verbose"), str) and isinstance(f.get("_Class__is_negated"), bool):
+            return {"__cls__": [f["_Class__verbose"], f["_Class__is_negated"]], "__pregex__": f["_Pregex__pattern"]}
+        return {"__pregex__": f["_Pregex__pattern"]}
     return a
 
 
@@ -267,20 +287,48 @@ class Engine:
         class invariant allows is explored"""
         f = path.fields(obj)
         if name == "_Pregex__repeatable":
-            ty = f.get("_Pregex__type")
+            ty = path.resolved(f.get("_Pregex__type"))
             if not isinstance(ty, Unknown) and ty is not None and ty.name != "Assertion":
-                f[name] = True
-            else:
-                f[name] = self.fresh("rep", BoolS)
-            return f[name]
-        T = self.index.modules["pregex.core.pre"].pyobj._Type
-        names = [t for t in T if t.name != "Empty"]
-        i = path.choose([(t.name, True) for t in names], f"type of {obj.label}")
-        f[name] = names[i]
+                return True
+            return self.fresh("rep", BoolS)
+        names = path.partial.get(id(v), (v, self.unknown_type_candidates()))[1]
+        i = path.choose([(t.name, True) for t in names], f"type of {obj.label}") if len(names) > 1 else 0
         t = f.get("_Pregex__pattern")
         if isinstance(t, SStr) and len(t.pieces) == 1 and not isinstance(t.pieces[0], str) and isinstance(t.pieces[0].info, dict):
             t.pieces[0].info.setdefault("type", names[i].name)
         return names[i]
+
+    def unknown_is(self, path, u, value):
+        """`u == value` for an undetermined inferred type: the candidates are narrowed, not enumerated"""
+        cands = path.partial.get(id(u), (u, self.unknown_type_candidates()))[1]
+        if value not in cands:
+            return False
+        if len(cands) == 1:
+            path.forced[id(u)] = (u, cands[0])
+            return True
+        i = path.choose([("is " + value.name, True), ("is not " + value.name, True)], f"type == {value.name}")
+        if i == 0:
+            path.forced[id(u)] = (u, value)
+            return True
+        rest = [t for t in cands if t is not value]
+        if len(rest) == 1:
+            path.forced[id(u)] = (u, rest[0])
+        else:
+            path.partial[id(u)] = (u, rest)
+        return False
+
+    def force_value(self, path, u):
+        """every remaining candidate of an undetermined inferred type is explored"""
+        if id(u) in path.forced:
+            return path.forced[id(u)][1]
+        names = path.partial.get(id(u), (u, self.unknown_type_candidates()))[1]
+        i = path.choose([(t.name, True) for t in names], "type of a result") if len(names) > 1 else 0
+        path.forced[id(u)] = (u, names[i])
+        return names[i]
+
+    def unknown_type_candidates(self):
+        T = self.index.modules["pregex.core.pre"].pyobj._Type
+        return [t for t in T if t.name != "Empty"]
 
     def fresh_id(self):
         self.fresh_n += 1
@@ -388,10 +436,12 @@ class Engine:
     def getattr(self, base, attr, fr, path):
         if attr == "__class__" and not isinstance(base, (Obj, ClassRef, ModRef, SuperRef)):
             return PyTypeOf(base)
+        if isinstance(base, Unknown):
+            base = self.force_value(path, base)
         if isinstance(base, Obj):
             f = path.fields(base)
             if attr in f:
-                return f[attr]
+                return path.resolved(f[attr])
             ci = base.cls if isinstance(base.cls, ClassInfo) else None
             if attr == "__class__":
                 return ClassRef(ci.name, ci, ci.pyobj) if ci else ClassRef(str(base.cls))
@@ -652,6 +702,14 @@ class Engine:
         import enum
         if a is b:
             return True
+        a, b = path.resolved(a), path.resolved(b)
+        if isinstance(a, Unknown) or isinstance(b, Unknown):
+            u, c = (a, b) if isinstance(a, Unknown) else (b, a)
+            if isinstance(c, enum.Enum):
+                return self.unknown_is(path, u, c)
+            if isinstance(c, Unknown):
+                return self.equal(self.force_value(path, u), self.force_value(path, c), path)
+            return self.equal(self.force_value(path, u), c, path)
         for x, y in ((a, b), (b, a)):
             if hasattr(x, "none") and hasattr(x, "s"):
                 if y is None:
@@ -1190,7 +1248,11 @@ class Engine:
             if c is None and not self.allow_inline_uncontracted(fi):
                 raise Limitation(f"call of {q}, which has no contract")
             return self.call_funcdef(fi.node, None, None, fi.cls, fi.module, fi, path, env=env, qual=q)
-        if c.get("concrete_native") and all(_is_concrete(v, path) for v in env.values()):
+        if (c.get("concrete_native") or (q.startswith("pregex.core.pre.Pregex.") and "self" in env and not c.get("assumed")
+                                         and isinstance(env.get("self"), Obj) and _public_method(q.rsplit(".", 1)[-1])
+                                         and not c.get("no_concrete"))) \
+                and all(_is_concrete(v, path) for v in env.values()):
+            # a public operation applied to constants: the real code is run on them (concrete execution)
             return self.concrete_call(fi, env, fr, path)
         return self.apply_contract(fi, c, env, fr, path)
 
@@ -1257,6 +1319,10 @@ class Engine:
                 if any("|".join(combo) not in tags for combo in itertools.product(*alts)):
                     self.kind_gaps.add((q, name, f"{len(tag)} operands"))
                 continue
+            if tag == "int" and isinstance(env[name], int) and f"const:{env[name]}" in tags:
+                continue
+            if tag == "bool" and isinstance(env[name], bool) and str(env[name]) in tags:
+                continue
             ok = tag in tags or (tag in ("str0", "str1", "str2") and "str" in tags) or \
                 (tag == "str" and all(t in tags for t in ("str0", "str1", "str2"))) or \
                 (tag.startswith("Group") and ("Group" in tags or tag.split(":")[0] in tags)) or \
@@ -1286,7 +1352,7 @@ class Engine:
             f = path.fields(v)
             if "_Pregex__type" not in f:
                 return "new"
-            ty = f["_Pregex__type"]
+            ty = path.resolved(f["_Pregex__type"])
             if isinstance(ty, Unknown) or ty is None:
                 return None
             shape = (getattr(v, "info", None) or {}).get("shape")
@@ -1724,16 +1790,16 @@ class Engine:
         init = ci.find_method("__init__")
         if init is None:
             raise Limitation(f"{ci.name} has no __init__")
-        c = self.contracts.get(f"new:{ci.module.name}.{ci.name}")
-        if c is not None:
-            env = self.bind_args(init, [None] + list(args), kwargs, fr, path)
-            env.pop("self", None)
-            return self.apply_contract(FakeFi(f"new:{ci.module.name}.{ci.name}", init), c, env, fr, path)
         if not ci.name.startswith("_") and all(_is_concrete(a, path) for a in list(args) + list(kwargs.values())):
             # a public constructor applied to constants: the real code is run on them (concrete execution)
             g = self.concrete_construct(ci, args, kwargs, fr, path)
             if g is not None:
                 return g
+        c = self.contracts.get(f"new:{ci.module.name}.{ci.name}")
+        if c is not None:
+            env = self.bind_args(init, [None] + list(args), kwargs, fr, path)
+            env.pop("self", None)
+            return self.apply_contract(FakeFi(f"new:{ci.module.name}.{ci.name}", init), c, env, fr, path)
         if self.contracts.get(init.qualname) is None and not self.contracts.get(getattr(init, "qualname", ""), {}).get("inline"):
             g = self.generic_construct(ci, args, kwargs, fr, path)
             if g is not None:
